@@ -81,6 +81,11 @@ Fixpoint shift_node (k : N) (n : node) : node :=
                           (map (shift_node k) ks)
   end.
 
+(* run_directive: a returned Element without a line gets the directive's line (848582d) *)
+Definition fill_line (position : N) (n : node) : node :=
+  match n with Node t p None ks => Node t p (Some position) ks | _ => n end.
+Definition fill_lines (position : N) (ns : list node) : list node := map (fill_line position) ns.
+
 Definition is_doc_or_section (t : ntag) : bool :=
   match t with NDoc | NSection => true | _ => false end.
 
@@ -426,10 +431,11 @@ Section Nest.
                                       (p_off p - prepended)%nat position (shr s1) in
                     Ok (DNodes ns, set_shr h s1)
                 end;
-              match fst r with
-              | DNodes ns => Ok (ns, snd r)
-              | DError level msg => Ok ([directive_error msg content position], snd r)
-              end
+              let result := match fst r with
+                            | DNodes ns => ns
+                            | DError level msg => [directive_error msg content position]
+                            end in
+              Ok (fill_lines position result, snd r)
           end
       end.
 
@@ -642,10 +648,11 @@ Section Nest.
                     Ok (DNodes ns, [], h', false)
                 end;
               let '(out, direct, h', b) := r in
-              match out with
-              | DNodes ns => Ok (ws ++ direct ++ ns, h', b)
-              | DError level msg => Ok (ws ++ direct ++ [directive_error msg content position], h', b)
-              end
+              let result := match out with
+                            | DNodes ns => ns
+                            | DError level msg => [directive_error msg content position]
+                            end in
+              Ok (ws ++ direct ++ fill_lines position result, h', b)
           end
       end.
 
